@@ -226,7 +226,14 @@ def replay_history(hist):
             elif op == 'tracks_remove':
                 del held[a - 1]
             elif op == 'msg_append':
-                held[a - 1].append(mk(b, c))
+                # the three spellings of "add a message to this track"
+                t_ = held[a - 1]
+                if (b + c) % 3 == 0:
+                    t_.append(mk(b, c))
+                elif (b + c) % 3 == 1:
+                    t_ += [mk(b, c)]            # in place: the file's own track grows
+                else:
+                    t_.extend(x for x in [mk(b, c)])
             elif op == 'msg_insert':
                 mid.tracks[a - 1].insert(0, mk(b, c))
             elif op == 'msg_delete':
